@@ -108,9 +108,25 @@ func CheckPAACookie(ctx context.Context, tokenString string) (bool, error) {
 
 	tunnel.TargetServer = custom.RemoteServer
 	tunnel.RemoteAddr = custom.ClientIP
-	tunnel.User.SetUserName(user.Subject)
+	tunnel.User.SetUserName(userName(user))
 
 	return true, nil
+}
+
+// userName returns the name the login keeps in the session for this user (the
+// first user name claim, see the openid callback). Host entries with a
+// {{ preferred_username }} placeholder are expanded with that name when the
+// connection file is issued, the host check has to expand them with the same.
+func userName(user *oidc.UserInfo) string {
+	var data map[string]interface{}
+	if err := user.Claims(&data); err == nil {
+		for _, claim := range []string{"preferred_username", "unique_name", "upn", "username"} {
+			if name, found := data[claim].(string); found {
+				return name
+			}
+		}
+	}
+	return user.Subject
 }
 
 func GeneratePAAToken(ctx context.Context, username string, server string) (string, error) {
